@@ -299,15 +299,19 @@ class World:
                     y = 's' if x == 'c' else 'c'
                     for c in self.chans:
                         mine, peer = self.chan[x].get(c), self.chan[y].get(c)
-                        if mine is None or peer is None or \
-                                'session_started' not in self.log[y][c]:
+                        if mine is None or peer is None:
                             continue
                         consuming = peer._recv_paused is False and \
+                            'session_started' in self.log[y][c] and \
                             (y, c) not in self.closed_by_app
                         # close() on a channel whose peer keeps reading: the
                         # unsent data drains, CLOSE goes out, the peer answers
                         t = self.tasks.get(f'wait_closed:{x}:{c}')
-                        if (x, c) in self.closed_by_app and consuming and \
+                        # (a peer that is itself waiting to close drops what
+                        # arrives but gives it back to the window)
+                        if (x, c) in self.closed_by_app and \
+                                (consuming or
+                                 peer._send_state == 'close_pending') and \
                                 t is not None and not t.done():
                             bad.append(
                                 f'AllWaitersResolved: wait_closed() on '
@@ -377,10 +381,11 @@ def model_obs(st, chans):
     return obs
 
 
-def replay(steps, chans, reject=(), final=None, win=0):
+def replay(steps, chans, reject=(), final=None, win=0, prefix=False):
     """steps: [(label, state-or-None)].  With states the implementation is
     compared with the model after every step; `final` (a model state) is
-    compared at the end of the script."""
+    compared at the end of the script.  prefix: the script may stop with
+    messages in flight and callbacks scheduled (the end game delivers them)."""
     w = World(chans, reject, win).start()
     res = {'diverged': None, 'l1': [], 'script': []}
     try:
@@ -446,7 +451,8 @@ def replay(steps, chans, reject=(), final=None, win=0):
             if res['diverged']:
                 break
             i = j
-        res['l1'] = w.l1(final=False) if not res['diverged'] else []
+        res['l1'] = w.l1(final=False) if not (res['diverged'] or prefix) \
+            else []
         # end game: deliver what is in flight, then lose the transport
         w.quiesce()
         res['l1'] += w.l1(final=False, quiet=True)
